@@ -433,6 +433,58 @@ def _stack_setup(c):
     return dev, []                # "natural": the expected text never shows up (interact)
 
 
+class _LibAdapter:
+    """the REAL ParamikoTransport (its undecorated read with the `except Exception` around recv) over a fake paramiko
+    channel whose recv blocks; looks like the Sim transports to run_stack_case"""
+
+    def __init__(self, real):
+        self.real, self.obs, self.trace, self.release_at, self.close_wakes = real, [], [], None, True
+        ad = self
+
+        class Chan:
+            closed, eof_received = False, False
+
+            def recv(self, n):
+                while not self.closed:
+                    if ad.release_at is not None and time.monotonic() >= ad.release_at:
+                        raise OSError("blocked recv gave up (the rig's socket timeout)")
+                    time.sleep(0.005)
+                return b""
+
+            def send(self, b):
+                if not ad.obs:
+                    ad.obs.append(_sig_ctx())
+                return len(b)
+
+            def close(self):
+                ad.trace.append(("close",))
+                self.closed = True
+
+            def settimeout(self, v):
+                pass
+
+        class Sess:
+            def is_alive(self):
+                return True
+
+            def close(self):
+                pass
+        self._chan, self._sess = Chan(), Sess()
+
+    def open(self):
+        self.real.session_channel, self.real.session = self._chan, self._sess
+
+    def isalive(self):
+        return self.real.isalive()
+
+
+def _paramiko_conn(t_ops):
+    from scrapli.driver import GenericDriver
+    conn = GenericDriver(host="h", transport="paramiko", auth_bypass=True, auth_strict_key=False, timeout_ops=t_ops or 0,
+                         timeout_transport=0, channel_lock=True, comms_prompt_pattern=r"^r1#\s*$")
+    return conn, _LibAdapter(conn.transport)
+
+
 def run_stack_case(c):
     from harness.simtransport import make_conn, named
     from scrapli.exceptions import ScrapliTimeout
@@ -443,9 +495,12 @@ def run_stack_case(c):
     zero = _zero(c.get("zero", "int"))
     t_ops = c["t_ops"] * TICK if c["t_ops"] else zero
     t_tr = c["t_tr"] * TICK if c["t_tr"] else zero
-    cls = named(ABlockSim if is_async else BlockSim, c["cls"])
-    conn, t = make_conn("cisco_iosxe", dev, stack=c["stack"], transport_cls=cls, on_empty="block", faults=faults,
-                        timeout_ops=t_ops or 0, timeout_transport=t_tr or 0, channel_lock=True)
+    if c.get("real_transport") == "paramiko":
+        conn, t = _paramiko_conn(t_ops)
+    else:
+        cls = named(ABlockSim if is_async else BlockSim, c["cls"])
+        conn, t = make_conn("cisco_iosxe", dev, stack=c["stack"], transport_cls=cls, on_empty="block", faults=faults,
+                            timeout_ops=t_ops or 0, timeout_transport=t_tr or 0, channel_lock=True)
     # the driver constructor coerces; put the exact falsy value where the decorator looks
     conn._base_channel_args.timeout_ops = t_ops
     conn._base_transport_args.timeout_transport = t_tr
@@ -954,6 +1009,9 @@ def matcher(case):
         return "F17-noterm"
     if v == "itimer_not_restored" and mech == "signal" and case.get("pre_timer"):
         return "F18"          # previously armed ITIMER_REAL left disarmed
+    if v in ("no_timeout", "closed_iff") and mech == "signal" and case.get("real_transport") in ("paramiko", "ssh2") \
+            and case.get("exc") == "ScrapliConnectionError" and case.get("out", "error") == "error":
+        return "F24-lib-read-swallows-timeout"   # `except Exception` around recv turns the handler's ScrapliTimeout into a connection error
     if v in ("late", "no_timeout") and mech == "signal" and case.get("nested_armed"):
         return "F18-nested"   # the inner wrapper's setitimer replaces / its finally disarms the outer timer
     return None
@@ -1029,8 +1087,12 @@ def stack_cases(rng, tier):
         allc.append({"kind": "stack", "stack": stack, "mech": mech, "cls": cls, "thread": thread, "op": op, "stall": stall,
                      "t_ops": t_ops, "t_tr": t_tr, "no_term": nt, "close_wakes": True, "zero": rng.choice(["int", "float"]),
                      "t_top": t_ops})
+    lib = [{"kind": "stack", "stack": "sync", "mech": mech, "cls": "ParamikoTransport", "thread": thread, "op": "get_prompt",
+            "stall": "before_echo", "t_ops": t_ops, "t_tr": 0, "no_term": nt, "close_wakes": True, "zero": "int", "t_top": t_ops,
+            "real_transport": "paramiko"}
+           for (mech, thread), t_ops, nt in itertools.product((("signal", "main"), ("thread", "other")), (2, 5), (False, True))]
     if tier == "thorough":
-        extra = []
+        extra = list(lib)
         for c in allc:
             if c["mech"] == "thread" and not c["no_term"] and c["stall"] != "never" and rng.random() < 0.15:
                 extra.append({**c, "close_wakes": False})
@@ -1045,7 +1107,7 @@ def stack_cases(rng, tier):
             seen1.add(k1)
             seen2.add(k2)
             pick.append(c)
-    return pick[:80]
+    return pick[:80] + lib
 
 
 def select_cases():
@@ -1096,6 +1158,7 @@ def run(tier, seed):
                   "CPython signal / threading / concurrent.futures / asyncio semantics (modelled as the abstract protocol, not verified)"]
     ck.assumptions = ["PARTIAL: wall-clock latency, surviving threads and whether close() wakes a blocked read are observed on the implementation, not proved",
                       "time passes only inside transport reads; the alarm is delivered while the main thread is blocked in the wrapped call (not between the statements of the wrapper's prologue/epilogue)",
+                      "transport.close() is atomic and safe to call from the SIGALRM handler (not true of every library: a lock held by the interrupted thread deadlocks it)",
                       "timeouts are non-negative; ties between two deadlines / a deadline and a read completing within 50 ms are not generated"]
     load_own_findings(ck)
     # 1 translate (+ cross-check the generated tables against the imported objects)
@@ -1358,12 +1421,15 @@ def evaluate(ck, c, r, m):
     noisy = all(a.get("hb_gap", 0) > NOISY for a in attempts)
     tie = kind == "stack" and c["t_ops"] == c["t_tr"] and c["t_ops"] > 0
     mism = []
+    swallowed = matcher({**case, "mech": c["mech"], "viol": "no_timeout", "exc": r.get("exc")})
+    swallowed = swallowed is not None and is_open(ck, swallowed)    # known defect outside the decorator: outcome judged by the oracle only
     if v == "late" and noisy:
         raise_harness(ck, f"machine too loaded to time {case}: elapsed {[round(a['elapsed'], 2) for a in attempts]} vs predicted {pred_s}, heartbeat gaps {[round(a.get('hb_gap', 0), 3) for a in attempts]}")
     elif v != "ok":
         mism.append(f"time impl={[round(a['elapsed'], 3) for a in attempts]} model={pred_s} ({v})")
     if r["out"] != m["out"]:
-        mism.append(f"outcome impl={r['out']}({r.get('exc')}) model={m['out']}")
+        if not swallowed:
+            mism.append(f"outcome impl={r['out']}({r.get('exc')}) model={m['out']}")
     elif r["out"] == "timeout" and r["msg"] != m["msg"] and not tie:
         mism.append(f"message impl={r['msg']!r} model={m['msg']!r}")
     if r["closed"] != m["closed"]:
@@ -1381,7 +1447,7 @@ def evaluate(ck, c, r, m):
     else:
         ck.traces_validated += 1
     # ---- (b) oracle: the property on the real observables, never consulting the model
-    info = {**case, "mech": c["mech"], "elapsed": round(r["elapsed"], 3), "out": r["out"], "msg": r["msg"], "closed": r["closed"],
+    info = {**case, "mech": c["mech"], "elapsed": round(r["elapsed"], 3), "out": r["out"], "msg": r["msg"], "exc": r.get("exc"), "closed": r["closed"],
             "nested_armed": nested_armed(c["prog"]),
             "inner_longer": any(t > t_top for d, t, _ in calls_ if d > 0) if t_top else False}
     want_mech = expected_mech(c)
